@@ -165,6 +165,7 @@ struct Obs {
     trues: u64,
     falses: u64,
     effective_removes: u64,
+    readds: u64,
     expected_total: u64,
     nontrivial: bool,
 }
@@ -749,8 +750,6 @@ fn build_rule(r: &RuleSpec) -> Rule {
     rule
 }
 
-/// `None`: a rule name is added while a rule of that name is present (the knowledge base
-/// rejects duplicates, so the monitor does not define that history).
 fn run_concl(ops: &[COp], goals: &[GoalSpec]) -> Option<(Vec<Disc>, Obs)> {
     let mut out = Vec::new();
     let mut obs = Obs::default();
@@ -759,8 +758,11 @@ fn run_concl(ops: &[COp], goals: &[GoalSpec]) -> Option<(Vec<Disc>, Obs)> {
     for (oi, op) in ops.iter().enumerate() {
         match op {
             COp::Add(r) => {
+                // a name that is already present: the index is handed the new version of the rule
+                // (the sequence is a legitimate one for the index's own API); from here on the
+                // rule "present under that name" is the new version
                 if present.contains_key(&r.name) {
-                    return None;
+                    obs.readds += 1;
                 }
                 ix.add_rule(&build_rule(r));
                 present.insert(r.name.clone(), r.clone());
@@ -1069,6 +1071,7 @@ fn check_case(c: &Case, st: &mut Stats) {
                 }
                 Case::Concl { .. } => {
                     st.add("conclusion::removes_of_present_rules", obs.effective_removes);
+                    st.add("conclusion::add_rule_under_a_present_name", obs.readds);
                     st.add("conclusion::expected_candidates", obs.expected_total);
                 }
             }
@@ -1291,7 +1294,7 @@ fn gen_concl(rng: &mut Rng) -> Case {
     let mut present: BTreeSet<String> = BTreeSet::new();
     for _ in 0..n {
         let name = format!("R{}", rng.below(5));
-        if !present.contains(&name) && (present.is_empty() || rng.chance(3, 5)) {
+        if (!present.contains(&name) || rng.chance(1, 4)) && (present.is_empty() || rng.chance(3, 5)) {
             let na = 1 + rng.below(3);
             let acts = (0..na)
                 .map(|_| match rng.below(10) {
@@ -1331,7 +1334,7 @@ impl Check for C16 {
             "alpha: 'without an index' is the library's own linear path (a shadow AlphaMemoryIndex that never creates an index)".into(),
             "beta: lookup keys are the Debug rendering of the join-key value (the convention of BetaMemoryIndex's own test); a fact is removed with the same content it was added with; a position is never added twice while live".into(),
             "memo: the evaluation closure handed to MemoizedEvaluator::evaluate is evaluate_typed itself".into(),
-            "conclusion: rule names are unique while present (KnowledgeBase::add_rule rejects duplicates); only Set actions count as 'assigns'; goals are single-field goals `field [op literal]`, optionally negated; compound goals are not generated (their 'goal field' is not defined by the statement)".into(),
+            "conclusion: add_rule under a name that is present hands the index a new version of that rule (1/4 of the adds of a present name): from then on the enabled rule present under the name is the new version; stale extra candidates are not judged (the clause is 'proposes every'); only Set actions count as 'assigns'; goals are single-field goals `field [op literal]`, optionally negated; compound goals are not generated (their 'goal field' is not defined by the statement)".into(),
         ]
     }
 
